@@ -34,6 +34,7 @@ package parsley
 //@ interface parsley.Error.Cause(e Error) (r error)
 //@   requires e != nil
 //@   ensures  r == e.Cause()
+//@   ensures  [not-wrapped] !typeis[Error](r)
 //@   assigns  nothing
 
 //@ func NewError(pos Pos, cause error) (r Error)
@@ -164,7 +165,11 @@ package parsley
 //@ virtual func NodeOK(n Node) bool
 //@ virtual func ListSpare(n Node) int
 //@ virtual func ListArr(n Node) int
-//@ virtual func EndsWithin(n Node, lo Pos, hi Pos) bool
+//@ -- the alternatives a result stands for: a list of alternatives is its elements, any other node is itself
+//@ virtual func NAlts(n Node) int default 1
+//@ virtual func Alt(n Node, k int) Node default n
+//@ -- every alternative of n ends inside [lo, hi]
+//@ pure func EndsWithin(n Node, lo Pos, hi Pos) bool = forall k int :: 0 <= k && k < NAlts(n) ==> lo <= Alt(n, k).ReaderPos() && Alt(n, k).ReaderPos() <= hi
 
 //@ interface parsley.Reader.Pos(r Reader, cur int) (p Pos)
 //@   requires r != nil && ReaderOK(r) && 0 <= cur && cur <= r.Remaining(r.Pos(0))
